@@ -19,6 +19,7 @@ import (
 const c13OverrideCases = 8
 
 func c13OverrideCase(c *core.Ctx, part int) {
+	c13TwoHandles(c)
 	r := c.Rand()
 	d, err := openC13(c)
 	if err != nil {
@@ -165,6 +166,78 @@ func sortedKeys(m boltz.MapFieldChecker) []string {
 	var out []string
 	for k := range m {
 		out = append(out, k)
+	}
+	sort.Strings(out)
+	return out
+}
+
+// c13TwoHandles: two TypedBucket handles on the same bucket inside one transaction (the entity strategy's bucket and
+// the one a constraint or a link collection looked up for itself). What one handle writes - a list or a map replacing
+// an earlier one - is what the other handle reads next, however often it has read the old value before.
+func c13TwoHandles(c *core.Ctx) {
+	r := c.Rand()
+	d, err := openC13(c)
+	if err != nil {
+		c.Violation("C13 setup", err.Error(), nil)
+		return
+	}
+	defer d.close()
+	pool := []string{"a", "b", "", "c c", "d", "é"}
+	for round := 0; round < 24; round++ {
+		l1, l2 := core.Subset(r, pool, 0.5), core.Subset(r, pool, 0.5)
+		m1 := map[string]any{"k": core.Pick(r, pool), "n": int64(round), "in": map[string]any{"x": core.Pick(r, pool)}}
+		m2 := map[string]any{"k": core.Pick(r, pool), "other": true}
+		name := fmt.Sprintf("two%d", round%3)
+		err := d.db.Update(func(tx *bbolt.Tx) error {
+			a := boltz.GetOrCreatePath(tx, "root", name)
+			b := boltz.Path(tx, "root", name)
+			if b == nil {
+				return fmt.Errorf("second handle is nil")
+			}
+			check := func(step string, wantL []string, wantM map[string]any) {
+				for hn, h := range map[string]*boltz.TypedBucket{"the first handle": a, "the second handle": b, "a fresh handle": boltz.Path(tx, "root", name)} {
+					got := h.GetStringList("l")
+					want := uniqSortedStrs(wantL)
+					c.Eval()
+					if fmt.Sprint(got) != fmt.Sprint(want) && !(len(got) == 0 && len(want) == 0) {
+						c.Violationf("C13 two handles on one bucket: a list written through one handle is not what another handle reads ("+step+")", map[string]any{"round": round, "written_first": l1, "written_second": l2}, "%s reads %q, expected %q", hn, got, want)
+					}
+					gm := h.GetMap("m")
+					if !nestedEq(expectNested(wantM), gm) {
+						c.Violationf("C13 two handles on one bucket: a map written through one handle is not what another handle reads ("+step+")", map[string]any{"round": round}, "%s reads %v, expected %v", hn, gm, wantM)
+					}
+				}
+			}
+			a.SetStringList("l", l1, nil)
+			a.PutMap("m", m1, nil, true)
+			check("first write, through the first handle", l1, m1)
+			b.SetStringList("l", l2, nil)
+			b.PutMap("m", m2, nil, true)
+			check("replaced through the second handle", l2, m2)
+			a.SetStringList("l", l1, nil)
+			check("list replaced again through the first handle", l1, m2)
+			if a.HasError() || b.HasError() {
+				return fmt.Errorf("bucket error: %v / %v", a.GetError(), b.GetError())
+			}
+			return nil
+		})
+		c.Count("two_handle_rounds", 1)
+		c.Nontrivial("twohandles", fmt.Sprint(l1), fmt.Sprint(l2))
+		if err != nil {
+			c.Violationf("C13 two handles on one bucket: transaction failed", nil, "%v", err)
+			return
+		}
+	}
+}
+
+func uniqSortedStrs(l []string) []string {
+	seen := map[string]bool{}
+	var out []string
+	for _, s := range l {
+		if !seen[s] {
+			seen[s] = true
+			out = append(out, s)
+		}
 	}
 	sort.Strings(out)
 	return out
